@@ -75,6 +75,56 @@ def stillPolling : Obs → Bool
 def pollOK (bound : Nat) (o : Out) : Bool :=
   decide (o.reqs.length ≤ bound + 1) && !stillPolling o.obs
 
+/-! ### promised by the interface (`client_abc.py`, `clients.py`) -/
+
+def isResourceNotFound : Obs → Bool
+  | .exc .resourceNotFound => true
+  | _ => false
+
+def isNoHandles : Obs → Bool
+  | .handles [] => true
+  | _ => false
+
+/-- `get_trial` of a trial that does not exist and `from_resource_name` of a study that does not exist
+    raise ResourceNotFoundError; `suggest` on a study that is not open returns `[]` -/
+def openOrNoHandles (before : DB) (h : Handle) (obs : Obs) : Bool :=
+  match findStudy before h.owner h.sid with
+  | some st => !st.immutable || isNoHandles obs
+  | none => true
+
+def promisedOK (before : DB) (h : Handle) (c : Call) (obs : Obs) : Bool :=
+  match c with
+  | .getTrial id => (lookup before h id).isSome || isResourceNotFound obs
+  | .fromResourceName sid => (findStudy before h.owner sid).isSome || isResourceNotFound obs
+  | .suggest _ _ _ => openOrNoHandles before h obs
+  | .getSuggestions _ _ => openOrNoHandles before h obs
+  | _ => true
+
+/-- `complete()` has nothing to select a final measurement from: a completable trial without
+    intermediate measurements, no (non-empty) measurement given -/
+def nothingToSelect (before : DB) (h : Handle) (id : Nat) (m : Option Meas) : Bool :=
+  completable before h id && (match m with | some x => !x.hasMetrics | none => true) &&
+  (match lookup before h id with | some t => t.meas.isEmpty | none => false)
+
+def isValueError : Obs → Bool
+  | .exc .valueError => true
+  | _ => false
+
+/-- documented (`TrialInterface.complete`): "Raises ValueError: If neither `measurement` nor
+    `infeasible_reason` is provided but the trial does not contain any intermediate measurements" -/
+def valueErrorOK (before : DB) (h : Handle) (c : Call) (obs : Obs) : Bool :=
+  match c with
+  | .complete id m none => !nothingToSelect before h id m || isValueError obs
+  | _ => true
+
+/-- documented (`TrialInterface.check_early_stopping`): "returns True if the Trial is in STOPPING state"
+    (already, or because this very call moved it there) -/
+def earlyStopOK (after : DB) (h : Handle) (c : Call) (obs : Obs) : Bool :=
+  match c, obs with
+  | .checkEarlyStopping id _, .flag true =>
+    (match lookup after h id with | some t => t.state == .stopping | none => false)
+  | _, _ => true
+
 /-- lifecycle of every study between two observations (the predicates of C01 / C02) -/
 def lifecycleOK (before after : DB) : Bool :=
   after.studies.all fun st' =>
